@@ -1,0 +1,91 @@
+//go:build verif
+
+package geom
+
+// TWKB writer (C07): header bytes, ID-list check, and the writer/parser
+// round trips of the header fields (harness functions in verif_harness_twkb.go).
+
+//@ prop C07
+
+// the result of appending to o: o's own memory when it had any, else new memory
+//@ pred Grown(n, o) = (cap(o) > 0 && region(n) == region(o)) || fresh(n)
+
+//@ func (*twkbWriter).writeHeaderByte
+//@   modifies w, w.twkbHeaders
+//@   ensures len(w.twkbHeaders) == old(len(w.twkbHeaders)) + 1 && w.twkbHeaders[old(len(w.twkbHeaders))] == b
+//@   ensures forall k :: 0 <= k && k < old(len(w.twkbHeaders)) ==> w.twkbHeaders[k] == old(w.twkbHeaders[k])
+//@   ensures Grown(w.twkbHeaders, old(w.twkbHeaders))
+//@   ensures onlychanged(w, twkbHeaders)
+
+//@ func (*twkbWriter).writeTypeAndPrecision
+//@   requires -8 <= w.precXY && w.precXY <= 7 && 0 <= kind && kind <= 15
+//@   modifies w, w.twkbHeaders
+//@   ensures len(w.twkbHeaders) == old(len(w.twkbHeaders)) + 1
+//@   ensures w.twkbHeaders[old(len(w.twkbHeaders))] % 16 == kind
+//@   ensures w.precXY >= 0 ==> w.twkbHeaders[old(len(w.twkbHeaders))] / 16 == 2 * w.precXY
+//@   ensures w.precXY < 0 ==> w.twkbHeaders[old(len(w.twkbHeaders))] / 16 == -2 * w.precXY - 1
+//@   ensures forall k :: 0 <= k && k < old(len(w.twkbHeaders)) ==> w.twkbHeaders[k] == old(w.twkbHeaders[k])
+//@   ensures Grown(w.twkbHeaders, old(w.twkbHeaders))
+//@   ensures onlychanged(w, twkbHeaders, kind) && w.kind == kind
+
+//@ func (*twkbWriter).writeExtendedPrecision
+//@   requires 0 <= w.precZ && w.precZ <= 7 && 0 <= w.precM && w.precM <= 7
+//@   modifies w, w.twkbHeaders
+//@   ensures len(w.twkbHeaders) == old(len(w.twkbHeaders)) + 1
+//@   ensures (w.twkbHeaders[old(len(w.twkbHeaders))] % 2 == 1) <==> w.hasZ
+//@   ensures ((w.twkbHeaders[old(len(w.twkbHeaders))] / 2) % 2 == 1) <==> w.hasM
+//@   ensures w.hasZ ==> (w.twkbHeaders[old(len(w.twkbHeaders))] / 4) % 8 == w.precZ
+//@   ensures w.hasM ==> (w.twkbHeaders[old(len(w.twkbHeaders))] / 32) % 8 == w.precM
+//@   ensures forall k :: 0 <= k && k < old(len(w.twkbHeaders)) ==> w.twkbHeaders[k] == old(w.twkbHeaders[k])
+//@   ensures Grown(w.twkbHeaders, old(w.twkbHeaders))
+//@   ensures onlychanged(w, twkbHeaders)
+
+//@ func (*twkbWriter).writeMetadataHeader
+//@   requires 0 <= metaheader && metaheader <= 255
+//@   modifies w, w.twkbHeaders
+//@   ensures len(w.twkbHeaders) == old(len(w.twkbHeaders)) + 1 && w.twkbHeaders[old(len(w.twkbHeaders))] == metaheader
+//@   ensures forall k :: 0 <= k && k < old(len(w.twkbHeaders)) ==> w.twkbHeaders[k] == old(w.twkbHeaders[k])
+//@   ensures Grown(w.twkbHeaders, old(w.twkbHeaders))
+//@   ensures onlychanged(w, twkbHeaders, isEmpty)
+
+//@ func (*twkbWriter).writeIDList
+//@   modifies w, w.twkbContents
+//@   ensures !w.hasIDs ==> result == nil && onlychanged(w)
+//@   ensures w.hasIDs && num != len(w.idList) ==> result != nil
+//@   ensures w.hasIDs && num == len(w.idList) ==> result == nil
+//@   loop 0 invariant 0 <= i && i <= num && num == len(w.idList) && onlychanged(w, twkbContents) && w != nil && Grown(w.twkbContents, old(w.twkbContents))
+
+//@ func (*twkbWriter).writeSignedVarint
+//@   modifies w, w.twkbContents
+//@   ensures onlychanged(w, twkbContents) && len(w.twkbContents) > old(len(w.twkbContents)) && Grown(w.twkbContents, old(w.twkbContents))
+//@ func (*twkbWriter).writeUnsignedVarint
+//@   modifies w, w.twkbContents
+//@   ensures onlychanged(w, twkbContents) && len(w.twkbContents) > old(len(w.twkbContents)) && Grown(w.twkbContents, old(w.twkbContents))
+
+//@ func (*twkbWriter).formTWKB
+//@   ensures len(result) == len(w.twkbHeaders) + len(w.twkbBBox) + len(w.twkbContents) && fresh(result)
+
+//@ func verifTWKBTypePrecRoundTrip
+//@   requires 1 <= kind && kind <= 7 && -8 <= precXY && precXY <= 7
+//@   ensures result2 == nil && result0 == kind && result1 == precXY
+
+//@ func verifTWKBExtPrecRoundTrip
+//@   requires 0 <= precZ && precZ <= 7 && 0 <= precM && precM <= 7
+//@   ensures result6 == nil && result0 == hasZ && result1 == hasM && (hasZ ==> result2 == precZ) && (hasM ==> result3 == precM)
+//@   ensures HasZ(result4) == hasZ && HasM(result4) == hasM && result5 == Dim(result4)
+
+//@ func verifTWKBMetadataRoundTrip
+//@   requires 4 <= kind && kind <= 7
+//@   ensures result5 == nil && result0 == hasExt && result1 == hasSize && result2 == hasBBox && result3 == hasIDs && !result4
+
+// out-of-range XY precision is rejected whatever the options do
+//@ func MarshalTWKB
+//@   requires forall k :: 0 <= k && k < len(opts) ==> opts[k] != nil
+//@   ensures (precXY < -8 || precXY > 7) ==> result1 != nil
+//@   ensures result1 == nil ==> -8 <= precXY && precXY <= 7
+
+// body encoder: outside the contracts (float rounding, recursion over the
+// geometry); trusted to touch only the writer it is given
+//@ func (*twkbWriter).writeGeometry
+//@   trusted
+//@   modifies w
